@@ -191,14 +191,16 @@ func (s *streamWriter) init() {
 // TODO: is there a way that stream router can listen to event stream
 // instead of sending the event itself?
 func (s *streamWriter) Shutdown() {
-	evt := actor.RemoteUnreachableEvent{ListenAddr: s.writeToAddr}
-	s.engine.Send(s.routerPID, evt)
-	s.engine.BroadcastEvent(evt)
 	if s.stream != nil {
 		s.stream.Close()
 	}
 	s.inbox.Stop()
 	s.engine.Registry.Remove(s.PID())
+	// Tell the router only once our id is free again: it may spawn our
+	// successor as soon as it has seen the event.
+	evt := actor.RemoteUnreachableEvent{ListenAddr: s.writeToAddr}
+	s.engine.Send(s.routerPID, evt)
+	s.engine.BroadcastEvent(evt)
 }
 
 func (s *streamWriter) Start() {
